@@ -347,6 +347,11 @@ def gen_int_string(rng):
 
 def gen_float_string(rng):
     r = rng.random()
+    if rng.random() < 0.06:
+        # grouping characters people type in amounts: none of these is a Python float literal
+        a, b = digits(rng, 1, 3), digits(rng, 3, 3)
+        return rng.choice([f'{a},{b}', f'{a},{b}.{digits(rng, 2, 2)}', f'{a},{digits(rng, 1, 2)}', ',', f'{a},', f',{b}', f'{a},e3',
+                           f'{a} {b}', f"{a}'{b}", f'{a}.{b},{digits(rng, 2, 2)}', f'${a}', f'{a}$', f'{a}%', f'({a})'])
     if r < 0.15:
         w = rng.choice(['nan', 'inf', 'infinity', 'Infinity', 'NaN', 'infinit', 'in', 'na', 'infinityy', 'nan0',
                         'i_nf', 'ınf', 'İnf', 'nan(1)', 'snan', 'inf.', '1nf'])
